@@ -58,7 +58,7 @@ func typeUniverse() []tast {
 	}
 	base = append(base, tp("FixedString", "3"), tp("FixedString", "16"), tp("Enum8", "'a' = 1", "'b' = 2"), tp("Enum8", "'x' = -1"),
 		tp("Enum16", "'a' = 1", "'b' = 300"), tp("DateTime", "'UTC'"), tp("DateTime", "'Europe/Berlin'"), tp("DateTime64", "3"),
-		tp("DateTime64", "6", "'UTC'"), tp("DateTime64", "9"), dec(9, 2), dec(9, 4), dec(10, 2), dec(18, 0), dec(38, 1), dec(76, 0), dec(100, 2),
+		tp("DateTime64", "6", "'UTC'"), tp("DateTime64", "9"), dec(9, 2), dec(9, 4), dec(10, 2), dec(18, 0), dec(19, 1), dec(38, 1), dec(39, 3), dec(76, 0), dec(100, 2),
 		tp("Decimal32", "2"), tp("Decimal64", "4"))
 	// the inferring enum columns of the value universe, under their exact definitions (decoded and re-encoded below)
 	eb := colgen.NewBases()
@@ -104,6 +104,11 @@ func inferCheck(s string) (errS string, typeOK bool, panicked string) {
 			return
 		}
 		typeOK = !c.Type().Conflicts(proto.ColumnType(s)) && !proto.ColumnType(s).Conflicts(c.Type())
+		// a column that was created decodes: data of one row and of two (zeros, then nothing more) give rows or an error
+		for _, rows := range []int{1, 2} {
+			c.Reset()
+			_ = c.DecodeColumn(proto.NewReader(bytes.NewReader(make([]byte, 96))), rows)
+		}
 	}()
 	select {
 	case <-done:
@@ -215,7 +220,9 @@ func typesMain(args []string) error {
 	rec("", 0)
 	deep := strings.Repeat("Array(", 5000) + "Int8" + strings.Repeat(")", 5000)
 	for _, s := range []string{deep, strings.Repeat("(", 100000), strings.Repeat("Nullable(", 3000), "Decimal(" + strings.Repeat("9", 400) + ")",
-		"FixedString(99999999999999999999)", "DateTime64(-1)", "Enum8('a'='b')", "Map(String)", "Tuple()", "Array()", "\x00\xff(\x80)"} {
+		"FixedString(99999999999999999999)", "FixedString(-1)", "FixedString(0)", "FixedString(-10)", "Array(FixedString(-4))", "FixedString(4611686018427387904)",
+		"FixedString( 7 )", "FixedString(10)", "Nullable(FixedString(-1))", "Decimal(-1, 2)", "Decimal(0, 0)", "DateTime64(-3)", "DateTime64(99)", "Enum8()", "Enum16('a' = 99999)",
+		"DateTime64(-1)", "Enum8('a'='b')", "Map(String)", "Tuple()", "Array()", "\x00\xff(\x80)"} {
 		if _, _, pan := inferCheck(s); pan != "" && len(bad) < 20 {
 			bad = append(bad, fmt.Sprintf("%.40q...: %s", s, pan))
 		}
